@@ -174,25 +174,33 @@ def checkService (strict : Bool) (sn : Str) : Except PyExc Unit :=
         | .ok true => .ok ()
     | _, _ => .error .indexError
 
+/-- name.py:143-146: `if remaining and remaining[-1] == '_sub': remaining.pop(); …` -/
+def popSub (remaining : List Str) : Except PyExc (List Str) :=
+  if remaining.getLast? = some subLabel then
+    let r := remaining.dropLast
+    if r.length = 0 ∨ (r.headD []).length = 0 then .error .badType else .ok r
+  else .ok remaining
+
+/-- name.py:152-159: the tests on the (joined) instance label -/
+def checkInst (i : Str) : Except PyExc Unit :=
+  if Gen.Name.inst_too_long (utf8Len i) then .error .badType else
+  match reSearchS Gen.hasAsciiControlCharsPattern i with
+  | .error e => .error e
+  | .ok true => .error .badType
+  | .ok false => .ok ()
+
 /-- name.py:143-161: `_sub` handling, joining, and the instance-label tests -/
 def finish (remaining : List Str) (result : Str) : Except PyExc Str :=
-  let afterSub : Except PyExc (List Str) :=
-    if remaining.getLast? = some subLabel then
-      let r := remaining.dropLast
-      if r.length = 0 ∨ (r.headD []).length = 0 then .error .badType else .ok r
-    else .ok remaining
-  match afterSub with
+  match popSub remaining with
   | .error e => .error e
   | .ok r =>
     let r := if r.length > 1 then [joinDot r] else r
     match r with
     | [] => .ok result
     | i :: _ =>
-      if Gen.Name.inst_too_long (utf8Len i) then .error .badType else
-      match reSearchS Gen.hasAsciiControlCharsPattern i with
+      match checkInst i with
       | .error e => .error e
-      | .ok true => .error .badType
-      | .ok false => .ok result
+      | .ok () => .ok result
 
 /-- name.py:101-139 -/
 def withService (strict : Bool) (remaining : List Str) (trailer : Str) : Except PyExc Str :=
